@@ -749,6 +749,11 @@ class Evaluate(Contract):
         N, K = S.num_segments_, S.integral_num_steps_
         x, gout = S.v('x'), S.v('grad_out')
         ws = S.v('ws').target
+        builtin = ws is None
+        if builtin:
+            # ws == nullptr: the optimizer's own lazily created workspace
+            slot = S.v('internal_ws_')
+            ws = slot.target
         fl = flags(S)
         W = lambda f: ws.fields[f]
         T = W('cache_times')
@@ -757,9 +762,13 @@ class Evaluate(Contract):
         doff = OFF(cnt)
         dim = doff + n_blocks(S) * D
         for label, p in evaluate_requires(S, OFF, x, ws):
-            S.requires(p, label)
+            # the built-in workspace, if it does not exist yet, is created empty (all sizes zero): the sizing invariant is required only
+            # of one that exists
+            S.requires(under(mk_not(slot.null()), p) if (builtin and label == 'workspace_buffers_sized_consistently') else p, label)
         S.terms(0, N, N - 1, cnt, cnt - 1)
-        S.assigns(ws, gout, *[S.v(v) for v in LAYOUT_STATE])
+        S.assigns(ws, gout, *([S.v(v) for v in LAYOUT_STATE] + ([slot] if builtin else [])))
+        if builtin:
+            S.ensures(mk_not(slot.null()), 'built_in_workspace_exists_afterwards')
         # what a following evaluation on the same optimizer and workspace may rely on
         S.ensures(mk_not(S.layout_dirty_), 'layout_cache_clean')
         for label, p in layout_ok(S, OFF):
